@@ -166,7 +166,8 @@ func (s *OnDiskAggTrigger) Fire(keyPath string, records []trigger.Record) {
 			return
 		}
 
-		cs = io.ColumnSeriesUnion(cs, &c.cs)
+		// the freshly written bars win over the cached ones (the right-hand series of the union wins)
+		cs = io.ColumnSeriesUnion(&c.cs, cs)
 
 		s.write(tbk, cs, tail, head, elements)
 
